@@ -190,6 +190,8 @@ func c05(c *Check) {
 
 	c.Rule("C05/callback-failure-yields-error-ack", "a destination callback whose post-transaction hook fails makes CallPacket fail (CallEVMWithData re-tests res.Failed() after the hook), so the error-acknowledgement branch is taken instead of the success one (shared with C03/C04)", 4)
 	evmHookRule(c, "C05/callback-failure-yields-error-ack")
+	c.Rule("C05/acknowledgement-fields-bound-by-name", "the constructors of the packet types (NewAcknowledgement, NewResult, NewPacket, …) put each argument into the field of its own name: the result code of a failed execution is not stored as the fee option (and acknowledged as success)", 10)
+	constructorBindings(c, "C05/acknowledgement-fields-bound-by-name", "/x/xibc/core/packet/types")
 	c.Rule("C05/tss-ack-authenticated-by-signer", "a TSS-secured counterparty's acknowledgement is 'verified' only by the identity of the transaction signer: the keeper hands msg.Signer to the TSS client exactly when the client type is TSS and under no other condition (a relayer-supplied proof field would let anybody replay the public TSS address)", 2)
 	tssProofRule(c, "C05/tss-ack-authenticated-by-signer")
 
